@@ -438,7 +438,8 @@ class FormulaMaterializer(metaclass=FormulaMaterializerMeta):
                 scoped_terms: Iterable[ScopedTerm] = self._simplify_scoped_terms(
                     term_span
                 )
-                spanned.update(term_span)
+                # Zero-scaled terms contribute nothing to the span.
+                spanned.update(st for st in term_span if st.scale != 0)
             else:
                 scoped_terms = [
                     ScopedTerm(
